@@ -26,6 +26,10 @@ enum verif_evt_kind { EV_LOAD = 1, EV_STORE, EV_XCHG, EV_CMPXCHG, EV_ADDRET, EV_
 #ifndef VERIF_STORE_HOOK
 #define VERIF_STORE_HOOK(addr, val)	((void) 0)
 #endif
+/* ENV mode: an environment step (other threads, rely) may run before every primitive */
+#ifndef VERIF_ENV
+#define VERIF_ENV()			((void) 0)
+#endif
 #ifndef VERIF_LOAD_RESULT
 #define VERIF_LOAD_RESULT(addr)		(*(addr))
 #endif
@@ -46,6 +50,7 @@ enum verif_evt_kind { EV_LOAD = 1, EV_STORE, EV_XCHG, EV_CMPXCHG, EV_ADDRET, EV_
 #define uatomic_load_mo(addr, mo)						\
 	__extension__ ({							\
 		__typeof__(addr) _va = (addr);					\
+		VERIF_ENV();							\
 		VERIF_EVT(EV_LOAD, _va, mo, 0);					\
 		VERIF_LOAD_HOOK(_va);						\
 		(__typeof__(*_va)) VERIF_LOAD_RESULT(_va);			\
@@ -53,6 +58,7 @@ enum verif_evt_kind { EV_LOAD = 1, EV_STORE, EV_XCHG, EV_CMPXCHG, EV_ADDRET, EV_
 #define uatomic_store_mo(addr, v, mo)						\
 	__extension__ ({							\
 		__typeof__(addr) _va = (addr);					\
+		VERIF_ENV();							\
 		__typeof__(*_va) _vv = (__typeof__(*_va)) (v);			\
 		VERIF_EVT(EV_STORE, _va, mo, _vv);				\
 		VERIF_STORE_HOOK(_va, _vv);					\
@@ -62,6 +68,7 @@ enum verif_evt_kind { EV_LOAD = 1, EV_STORE, EV_XCHG, EV_CMPXCHG, EV_ADDRET, EV_
 #define uatomic_xchg_mo(addr, v, mo)						\
 	__extension__ ({							\
 		__typeof__(addr) _va = (addr);					\
+		VERIF_ENV();							\
 		__typeof__(*_va) _vv = (__typeof__(*_va)) (v);			\
 		__typeof__(*_va) _vo;						\
 		VERIF_EVT(EV_XCHG, _va, mo, _vv);				\
@@ -75,6 +82,7 @@ enum verif_evt_kind { EV_LOAD = 1, EV_STORE, EV_XCHG, EV_CMPXCHG, EV_ADDRET, EV_
 #define uatomic_cmpxchg_mo(addr, old, _new, mos, mof)				\
 	__extension__ ({							\
 		__typeof__(addr) _va = (addr);					\
+		VERIF_ENV();							\
 		__typeof__(*_va) _vold = (__typeof__(*_va)) (old);		\
 		__typeof__(*_va) _vnew = (__typeof__(*_va)) (_new);		\
 		__typeof__(*_va) _vo;						\
@@ -91,6 +99,7 @@ enum verif_evt_kind { EV_LOAD = 1, EV_STORE, EV_XCHG, EV_CMPXCHG, EV_ADDRET, EV_
 #define uatomic_add_return_mo(addr, v, mo)					\
 	__extension__ ({							\
 		__typeof__(addr) _va = (addr);					\
+		VERIF_ENV();							\
 		__typeof__(*_va) _vn;						\
 		VERIF_EVT(EV_ADDRET, _va, mo, (v));				\
 		VERIF_LOAD_HOOK(_va);						\
@@ -103,6 +112,7 @@ enum verif_evt_kind { EV_LOAD = 1, EV_STORE, EV_XCHG, EV_CMPXCHG, EV_ADDRET, EV_
 #define uatomic_add_mo(addr, v, mo)						\
 	__extension__ ({							\
 		__typeof__(addr) _va = (addr);					\
+		VERIF_ENV();							\
 		__typeof__(*_va) _vn;						\
 		VERIF_EVT(EV_ADD, _va, mo, (v));				\
 		VERIF_LOAD_HOOK(_va);						\
@@ -117,6 +127,7 @@ enum verif_evt_kind { EV_LOAD = 1, EV_STORE, EV_XCHG, EV_CMPXCHG, EV_ADDRET, EV_
 #define uatomic_and_mo(addr, v, mo)						\
 	__extension__ ({							\
 		__typeof__(addr) _va = (addr);					\
+		VERIF_ENV();							\
 		__typeof__(*_va) _vn;						\
 		VERIF_EVT(EV_AND, _va, mo, (v));				\
 		VERIF_LOAD_HOOK(_va);						\
@@ -128,6 +139,7 @@ enum verif_evt_kind { EV_LOAD = 1, EV_STORE, EV_XCHG, EV_CMPXCHG, EV_ADDRET, EV_
 #define uatomic_or_mo(addr, v, mo)						\
 	__extension__ ({							\
 		__typeof__(addr) _va = (addr);					\
+		VERIF_ENV();							\
 		__typeof__(*_va) _vn;						\
 		VERIF_EVT(EV_OR, _va, mo, (v));					\
 		VERIF_LOAD_HOOK(_va);						\
